@@ -155,6 +155,8 @@ class Theory:
             return self.M
         if kind == 'kset':
             return self.KS
+        if kind == 'emap':
+            return self.EM
         if kind == 'fn':
             return self.Fn
         if isinstance(kind, tuple) and kind[0] == 'seq':
@@ -447,7 +449,10 @@ class Theory:
                    z3.Implies(mem(ks, sk),
                               z3.And(0 <= self.key_pos(ks, sk), self.key_pos(ks, sk) < SS.len(self.sorted_keys(ks)),
                                      SS.idx(self.sorted_keys(ks), self.key_pos(ks, sk)) == sk)),
-                   [[mem(ks, sk), self.sorted_keys(ks)]])
+                   [[mem(ks, sk), self.sorted_keys(ks)], [self.key_pos(ks, sk)]])
+        self.axiom('key_pos_inverse', [ks, i],
+                   z3.Implies(z3.And(0 <= i, i < SS.len(self.sorted_keys(ks))), self.key_pos(ks, SS.idx(self.sorted_keys(ks), i)) == i),
+                   [SS.idx(self.sorted_keys(ks), i)])
         self.axiom('sorted_keys_distinct', [ks, i, j],
                    z3.Implies(z3.And(0 <= i, i < j, j < SS.len(self.sorted_keys(ks))),
                               z3.And(SS.idx(self.sorted_keys(ks), i) != SS.idx(self.sorted_keys(ks), j),
@@ -477,6 +482,51 @@ class Theory:
         self.axiom('ks_empty_def0', [sk], z3.Not(mem(self.ks_empty, sk)), [mem(self.ks_empty, sk)])
         self.axiom('ks_add_def0', [ks, sk, sk2], mem(self.ks_add(ks, sk), sk2) == z3.Or(sk2 == sk, mem(ks, sk2)),
                    [mem(self.ks_add(ks, sk), sk2)])
+
+        # ---- entry maps (str -> diff entry): the state of MappingDiffBuilder ----
+        self.EM = z3.DeclareSort('EM')
+        em, em2 = z3.Consts('em em2', self.EM)
+        ee = z3.Const('ee', self.E)
+        self.em_dom = f('em.dom', self.EM, self.KS)
+        self.em_get = f('em.get', self.EM, Str, self.E)
+        self.em_empty = z3.Const('em.empty', self.EM)
+        self.em_put = f('em.put', self.EM, Str, self.E, self.EM)
+        self.em_eq = f('em.eq', self.EM, self.EM, B)
+        self.axiom('em_empty_dom', [sk], z3.Not(mem(self.em_dom(self.em_empty), sk)), [mem(self.em_dom(self.em_empty), sk)])
+        self.axiom('em_put_dom', [em, sk, ee, sk2],
+                   mem(self.em_dom(self.em_put(em, sk, ee)), sk2) == z3.Or(sk2 == sk, mem(self.em_dom(em), sk2)),
+                   [mem(self.em_dom(self.em_put(em, sk, ee)), sk2)])
+        self.axiom('em_put_get', [em, sk, ee, sk2],
+                   self.em_get(self.em_put(em, sk, ee), sk2) == z3.If(sk2 == sk, ee, self.em_get(em, sk2)),
+                   [self.em_get(self.em_put(em, sk, ee), sk2)])
+        self.axiom('em_eq_def', [em, em2],
+                   self.em_eq(em, em2) == z3.And(
+                       z3.ForAll([sk], mem(self.em_dom(em), sk) == mem(self.em_dom(em2), sk),
+                                 patterns=[mem(self.em_dom(em), sk), mem(self.em_dom(em2), sk)]),
+                       z3.ForAll([sk], z3.Implies(mem(self.em_dom(em), sk), self.em_get(em, sk) == self.em_get(em2, sk)),
+                                 patterns=[self.em_get(em, sk), self.em_get(em2, sk)])),
+                   [self.em_eq(em, em2)])
+        self.axiom('em_eq_ext', [em, em2], z3.Implies(self.em_eq(em, em2), em == em2), [self.em_eq(em, em2)])
+        # keyed(em): every entry is filed under its own key
+        self.keyed = f('keyed', self.EM, B)
+        self.axiom('keyed_def', [em],
+                   self.keyed(em) == z3.ForAll([sk], z3.Implies(mem(self.em_dom(em), sk), self.e_skey(self.em_get(em, sk)) == sk),
+                                               patterns=[self.em_get(em, sk)]),
+                   [self.keyed(em)])
+        # sorted(em.values(), key=lambda x: x.key): for a keyed map (entry keys = dict keys, hence pairwise distinct) the result
+        # lists the values in increasing dict-key order.  [semantics of sorted() with a key function on distinct keys]
+        self.sorted_entries = f('sorted_entries', self.EM, SE.sort)
+        self.axiom('sorted_entries_len', [em],
+                   z3.Implies(self.keyed(em), SE.len(self.sorted_entries(em)) == SS.len(self.sorted_keys(self.em_dom(em)))),
+                   [self.sorted_entries(em)])
+        self.axiom('sorted_entries_idx', [em, i],
+                   z3.Implies(z3.And(self.keyed(em), 0 <= i, i < SE.len(self.sorted_entries(em))),
+                              SE.idx(self.sorted_entries(em), i) == self.em_get(em, SS.idx(self.sorted_keys(self.em_dom(em)), i))),
+                   [SE.idx(self.sorted_entries(em), i)])
+        # type(x) is type(y), and the path-level lookups of diff_dicts
+        self.same_type = f('same_type', V, V, B)
+        self.has_preds = f('has_preds', self.Path, B)
+        self.path_norm = f('path_norm', self.Path, self.Path)
 
         # ---- Apply for mapping diffs:  am_dom / am_get as folds over the entry list ----
         # well-formed map diff relative to obj:  keys pairwise distinct; add => key not in obj; others => in obj
